@@ -453,6 +453,177 @@ def install_crew_cost_wrappers():
     wrap_cost("natural_repair", "natural", "nat_repair_cost")
 
 
+
+def install_sim_wrappers():
+    """append-only additions for the integrated-simulation check SIM (observation only).  Active only
+    when the configuration carries "sim_trace": true, so every other check sees the trace it saw before.
+      ["simworld", {...}]        once per (program, simulation) before the day loop: the infrastructure the
+                                 run works on (sites -> groups -> components -> sources -> pending emissions in
+                                 pop order, each with its global index "g") and the program's methods in
+                                 `Program._methods` order with their per-site survey time / cost
+      ["cov", day, method, g, "s"|"t", outcome]   a spatial (only when freshly drawn) / temporal coverage roll
+      ["ttime", day, method, value]               result of Method._get_travel_time (precedes its "survey" event)
+      ["rcost", day, g, amount]                   result of RepairableEmission.get_repair_cost
+      ["dl", day, method, daylight_hours]         daylight.get_daylight(date) seen by Method.get_daylight_hours
+      ["quant", day, true_rate, measured_rate]    DefaultSensor._measure_rate
+    """
+    from ldar_sim import LdarSim
+    from programs.method import Method
+    from programs.component_level_method import ComponentLevelMethod
+    from programs.site_level_method import SiteLevelMethod
+    from virtual_world.emission_types.emission import Emission
+    from virtual_world.emission_types.repairable_emission import RepairableEmission
+    from sensors.default_sensor import DefaultSensor
+
+    REG = {}
+
+    def _num(x):
+        try:
+            return float(x)
+        except Exception:
+            return None
+
+    def describe(infra, program, sim):
+        sites = []
+        g = 0
+        for site in infra._sites:
+            eqgs = []
+            for eqg in site._equipment_groups:
+                comps = []
+                for comp in eqg._component:
+                    srcs = []
+                    for src in comp._sources:
+                        lst = src._generated_emissions.get(sim, [])
+                        ems = []
+                        for em in reversed(lst):  # pop order
+                            REG[id(em)] = g
+                            rc = getattr(em, "_repair_cost", None)
+                            ems.append({
+                                "g": g, "id": em._emissions_id, "start": di(em._start_date), "rate": float(em._rate),
+                                "repairable": bool(em._repairable),
+                                "nrd": int(getattr(em, "_nrd", getattr(em, "_duration", 0))),
+                                "repair_delay": int(getattr(em, "_repair_delay", 0)),
+                                "repair_cost": rc if isinstance(rc, list) else _num(rc),
+                                "intermittent": hasattr(em, "_active_duration"),
+                                "adur": int(getattr(em, "_active_duration", 1)),
+                                "idur": int(getattr(em, "_inactive_duration", 0)),
+                                "cls": type(em).__name__})
+                            g += 1
+                        srcs.append({"id": str(src.get_id()), "ems": ems,
+                                     "cursor": None if src._next_emission is None else "set"})
+                    comps.append({"id": str(comp.get_id()), "sources": srcs})
+                eqgs.append({"id": str(eqg.get_id()), "comps": comps})
+            sites.append({"id": str(site.get_id()), "eqgs": eqgs,
+                          "latest_tag": di(site.get_latest_tagging_survey_date())})
+        meths = []
+        for meth in program._methods:
+            name = meth.get_name()
+            d = {"name": name,
+                 "scale": "component" if isinstance(meth, ComponentLevelMethod) else ("site" if isinstance(meth, SiteLevelMethod) else type(meth).__name__),
+                 "deployment": meth._deployment_type, "is_follow_up": bool(meth._is_follow_up),
+                 "crews": int(meth._crews), "max_work_hours": _num(meth._max_work_hours),
+                 "daylight_sensitive": bool(meth._daylight_sensitive), "weather": bool(meth._weather),
+                 "cost_type": meth.cost_type, "cost": _num(meth.cost), "upfront_cost": _num(meth.upfront_cost),
+                 "mdl": _num(meth._sensor._mdl), "reporting_delay": int(meth._reporting_delay),
+                 "travel_times": meth._travel_times if isinstance(meth._travel_times, (int, float, list)) else None,
+                 "sensor": type(meth._sensor).__name__,
+                 "site_time": {str(s.get_id()): (_num(s.get_method_survey_time(name)) if meth._deployment_type != "stationary" else 0)
+                               for s in infra._sites},
+                 "site_cost": {str(s.get_id()): _num(s.get_survey_cost(name)) for s in infra._sites}}
+            sched = program._survey_schedules.get(name)
+            d["sched_class"] = type(sched).__name__
+            d["sched_crews"] = int(getattr(sched, "_method_crews", 0))
+            d["sched_cap"] = int(getattr(sched, "_est_meth_daily_surveys", 0))
+            if isinstance(meth, SiteLevelMethod):
+                d["follow_up"] = {
+                    "schedule": meth._follow_up_schedule._method, "delay": int(meth._delay),
+                    "proportion": _num(meth._proportion), "threshold_first": bool(meth._threshold_first),
+                    "inst_threshold": None if meth._inst_threshold == float("inf") else _num(meth._inst_threshold),
+                    "threshold": _num(getattr(meth, "_threshold", 0.0)),
+                    "filter": getattr(meth, "_redund_filter", None),
+                    "small_window": getattr(meth, "_small_window", None), "large_window": getattr(meth, "_large_window", None),
+                    "small_window_threshold": _num(getattr(meth, "_small_window_threshold", 0.0)),
+                    "large_window_threshold": _num(getattr(meth, "_large_window_threshold", 0.0))}
+            meths.append(d)
+        return {"sites": sites, "methods": meths, "n_emissions": g, "method_names": list(program.method_names)}
+
+    orig_run = LdarSim.run_simulation
+
+    @functools.wraps(orig_run)
+    def run_simulation(self):
+        try:
+            REG.clear()
+            EVENTS.append(["simworld", describe(self._infrastructure, self._program, self._sim_number)])
+        except Exception as e:  # never disturb the run
+            EVENTS.append(["simworld-error", repr(e)])
+        return orig_run(self)
+
+    LdarSim.run_simulation = run_simulation
+
+    orig_sc = Emission.check_spatial_cov
+
+    @functools.wraps(orig_sc)
+    def check_spatial_cov(self, method):
+        fresh = f"{method} Spatial Coverage" not in self._tech_spat_covs
+        out = orig_sc(self, method)
+        if fresh:
+            EVENTS.append(["cov", CTXT["day"], method, REG.get(id(self)), "s", int(out)])
+        return out
+
+    Emission.check_spatial_cov = check_spatial_cov
+    orig_tc = Emission.check_temporal_cov
+
+    @functools.wraps(orig_tc)
+    def check_temporal_cov(self, method):
+        out = orig_tc(self, method)
+        EVENTS.append(["cov", CTXT["day"], method, REG.get(id(self)), "t", int(out)])
+        return out
+
+    Emission.check_temporal_cov = check_temporal_cov
+
+    orig_tt = Method._get_travel_time
+
+    @functools.wraps(orig_tt)
+    def _get_travel_time(self):
+        out = orig_tt(self)
+        EVENTS.append(["ttime", CTXT["day"], self._name, out if isinstance(out, int) else float(out)])
+        return out
+
+    Method._get_travel_time = _get_travel_time
+
+    orig_rc = RepairableEmission.get_repair_cost
+
+    @functools.wraps(orig_rc)
+    def get_repair_cost(self):
+        out = orig_rc(self)
+        EVENTS.append(["rcost", CTXT["day"], REG.get(id(self)), _num(out)])
+        return out
+
+    RepairableEmission.get_repair_cost = get_repair_cost
+
+    orig_dl = Method.get_daylight_hours
+
+    @functools.wraps(orig_dl)
+    def get_daylight_hours(self, daylight, max_hours, curr_date):
+        try:
+            EVENTS.append(["dl", di(curr_date), self._name, float(daylight.get_daylight(curr_date))])
+        except Exception:
+            pass
+        return orig_dl(self, daylight, max_hours, curr_date)
+
+    Method.get_daylight_hours = get_daylight_hours
+
+    orig_mr = DefaultSensor._measure_rate
+
+    @functools.wraps(orig_mr)
+    def _measure_rate(self, true_rate):
+        out = orig_mr(self, true_rate)
+        EVENTS.append(["quant", CTXT["day"], float(true_rate), float(out)])
+        return out
+
+    DefaultSensor._measure_rate = _measure_rate
+
+
 def main():
     shim.install()
     shim.set_weather(_weather_fn())
@@ -466,6 +637,8 @@ def main():
     if TRACE_ON:
         install_wrappers()
         install_crew_cost_wrappers()
+        if CFG.get("sim_trace"):
+            install_sim_wrappers()
     hook = JOB.get("pre_run_hook")
     if hook:
         # "module:function" called with the job before the run (used by checks that permute listings,
